@@ -610,7 +610,7 @@ func (e *Env) callPure(n *ast.CallExpr, pf *PureFunc) Term {
 			e.fail(n, "virtual function %s: first parameter must be an interface value", pf.Name)
 		}
 		rs := e.u().sortOf(fsig.Results().At(0).Type())
-		return app(rs, e.st.methodSymbol(e, pf.Name, sorts, rs), args...)
+		return app(rs, e.st.methodSymbol(e, pf.Name, sorts, rs, fsig.Params().At(0).Type()), args...)
 	}
 	if pf.Abstract {
 		sig := e.info.TypeOf(n.Fun).(*types.Signature)
@@ -708,6 +708,9 @@ func (e *Env) convert(v Term, from, to types.Type, n ast.Node) Term {
 	}
 	if ts == SStr && v.Sort == SSlice {
 		return e.st.stringOfBytes(e.cur, v)
+	}
+	if ts == SStr && v.Sort == SInt {
+		return e.st.runeString(v)
 	}
 	e.fail(n, "unsupported conversion %s -> %s", from, to)
 	return Term{}
@@ -963,18 +966,25 @@ func (st *State) pureMethod(e *Env, n *ast.CallExpr, f *ast.SelectorExpr, recvT 
 	for _, a := range args {
 		sorts = append(sorts, a.Sort)
 	}
-	return app(rs, st.methodSymbol(e, m.Name(), sorts, rs), append([]Term{recv}, args...)...)
+	// the interface that declares the method (for embedded interfaces: the embedded one)
+	declIface := recvT
+	if r := sig.Recv(); r != nil {
+		if _, ok := r.Type().Underlying().(*types.Interface); ok {
+			declIface = r.Type()
+		}
+	}
+	return app(rs, st.methodSymbol(e, m.Name(), sorts, rs, declIface), append([]Term{recv}, args...)...)
 }
 
-func (st *State) methodSymbol(e *Env, name string, sorts []Sort, rs Sort) string {
+func (st *State) methodSymbol(e *Env, name string, sorts []Sort, rs Sort, ifaceT types.Type) string {
 	prog := st.ex.prog
-	rel := prog.relevantFams(st.ex, name, sorts, rs)
+	rel := prog.relevantFams(st.ex, name, sorts, rs, ifaceT)
 	var vers []string
 	for _, fam := range rel {
 		sym := st.symIn(e.cur, fam)
 		vers = append(vers, sym[strings.LastIndex(sym, "@")+1:])
 	}
-	sym := "M." + name
+	sym := "M." + name + "." + shortTypeName(ifaceT)
 	for _, a := range sorts[1:] {
 		sym += "." + string(a)
 	}
@@ -995,7 +1005,7 @@ func (st *State) methodSymbol(e *Env, name string, sorts []Sort, rs Sort) string
 			continue
 		}
 		rt := prog.recvTypeOf(pf)
-		if rt == nil {
+		if rt == nil || !implementsIface(rt, ifaceT) {
 			continue
 		}
 		tid := st.u().typeID(rt)
@@ -1003,7 +1013,7 @@ func (st *State) methodSymbol(e *Env, name string, sorts []Sort, rs Sort) string
 		st.emitMethodLink(e, pf, sym, rs, rt, tid)
 	}
 	// foreign implementations
-	xname := "X." + name + "." + string(rs)
+	xname := "X." + name + "." + shortTypeName(ifaceT) + "." + string(rs)
 	for _, a := range sorts[1:] {
 		xname += "." + string(a)
 	}
@@ -1023,12 +1033,20 @@ func (st *State) methodSymbol(e *Env, name string, sorts []Sort, rs Sort) string
 }
 
 // relevantFams: the heap families on which the value of pure method `name` depends
-func (p *Program) relevantFams(ex *Exec, name string, sorts []Sort, rs Sort) []string {
+func implementsIface(t types.Type, ifaceT types.Type) bool {
+	it, ok := ifaceT.Underlying().(*types.Interface)
+	if !ok {
+		return true
+	}
+	return types.Implements(t, it)
+}
+
+func (p *Program) relevantFams(ex *Exec, name string, sorts []Sort, rs Sort, ifaceT types.Type) []string {
 	if p.relCache == nil {
 		p.relCache = map[string][]string{}
 		p.relBusy = map[string]bool{}
 	}
-	ck := name + ":" + string(rs)
+	ck := name + "[" + shortTypeName(ifaceT) + "]:" + string(rs)
 	for _, a := range sorts[1:] {
 		ck += "." + string(a)
 	}
@@ -1052,13 +1070,13 @@ func (p *Program) relevantFams(ex *Exec, name string, sorts []Sort, rs Sort) []s
 				continue
 			}
 			rt := p.recvTypeOf(pf)
-			if rt == nil {
+			if rt == nil || !implementsIface(rt, ifaceT) {
 				continue
 			}
 			sc.emitMethodLink(se, pf, "M.scratch", rs, rt, 1)
 		}
 	}()
-	xn := "X." + name + "." + string(rs)
+	xn := "X." + name + "." + shortTypeName(ifaceT) + "." + string(rs)
 	for _, a := range sorts[1:] {
 		xn += "." + string(a)
 	}
